@@ -778,6 +778,10 @@ func (p *parser) number(s string) Expr {
 		}
 		p.fail("bad number %q", s)
 	}
+	// a sized literal keeps only its low Width bits (Verilog truncates 1'b10 to 1'b0)
+	if n.Sized && n.Width < 64 {
+		v &= uint64(1)<<uint(n.Width) - 1
+	}
 	n.Val = v
 	return n
 }
